@@ -2,6 +2,7 @@ package exec
 
 import (
 	"fmt"
+	"math/rand"
 	"sort"
 	"strings"
 	"sync"
@@ -65,6 +66,9 @@ type Explorer struct {
 
 	MaxPaths   int64
 	Deadline   time.Time
+	RandomPick float64 // probability of taking a random frontier element instead of the newest
+	Seed       int64
+	rng        *rand.Rand
 	Paths      int64 // completed paths (any ending)
 	Decisions  int64
 	Infeasible int64
@@ -123,6 +127,18 @@ func (e *Explorer) next() (WorkItem, bool) {
 				e.Budget = true
 				e.cond.Broadcast()
 				return WorkItem{}, false
+			}
+			// depth-first by default; with RandomPick > 0 some picks take a random frontier
+			// element instead, so that a run cut short by its budget has sampled the whole
+			// decision tree rather than one corner of it (bounded frontier: memory)
+			if e.RandomPick > 0 && len(e.work) > 1 && len(e.work) < 1_000_000 {
+				if e.rng == nil {
+					e.rng = rand.New(rand.NewSource(e.Seed + 1))
+				}
+				if e.rng.Float64() < e.RandomPick {
+					i := e.rng.Intn(len(e.work))
+					e.work[i], e.work[len(e.work)-1] = e.work[len(e.work)-1], e.work[i]
+				}
 			}
 			w := e.work[len(e.work)-1]
 			e.work = e.work[:len(e.work)-1]
